@@ -133,11 +133,15 @@ def relevant(prop, f):
         return 'status' in parts and ((ro == 'Partial') != (eo == 'Partial'))
     if prop == 'C04':
         return any(x in parts for x in ('method', 'path', 'reason', 'headers'))
+    if 'history' in parts:
+        return prop in ('C18', 'C16')
     if prop == 'C16':
         return True
     if prop == 'C13':
         return fam == 'chunk' or f.get('gen') == 'lane-sweep'
-    if prop in ('C15', 'C18'):
+    if prop == 'C18':
+        return 'history' in parts or 'headers-len-restore' in parts
+    if prop == 'C15':
         return 'headers-len-restore' in parts
     return False
 
